@@ -80,6 +80,9 @@ THEOREMS = ["OllamaVerif.C18." + t for t in (
     "scale_contract_of_laws", "guard_of_laws", "contracts_after_shift", "isDesc_head_max", "xScaleLawsOn", "xBeqRefl",
     "shift_desc", "shift_contract_of_laws", "isDesc_of_pairwise", "shift_scale_contracts_of_laws", "xShiftLawsOn",
     "sample_admissible_lawful",
+    # any deterministic top-k stage: reproducibility; runGood derived from an input guard + laws + finiteness of the masses
+    "sampleHistWith_topK", "reproducible_with_any_sort", "histWith_each_call",
+    "runGood_of_laws", "runGood_from_input", "sample_admissible_from_input", "maxScan_desc", "xSoftmaxLawsOn",
     "deterministic", "hist_nth", "Sample_indep_r", "stream_of_seed", "grammar_step_spec",
     "grammar_retry_admissible_partial", "grammar_retry_admissible_fixed_partial", "grammar_retry_greedy",
     "masked_not_neginf_accepted", "maskLogits_get", "F18_nan_instead_of_token", "F18_guard_fails",
@@ -165,7 +168,7 @@ REQUIRED_BRANCHES = [
     "grammar_path_fast", "grammar_path_slow", "large_vocab_histories", "env_repro_histories",
     # the comparisons / monitors themselves must have run
     "l2_membership_checked", "contract_ok", "hist_ops", "ghist_ops", "large_hist_ops", "l2_nan_weighted_checked",
-    "long_histories", "grammar_unseeded_calls",
+    "long_histories", "grammar_unseeded_calls", "topk_determinism_checked",
 ]
 # (skipped, total, maximal share): a skip that grows beyond its usual share means a monitor is being bypassed
 BOUNDED_SKIPS = [
@@ -300,9 +303,17 @@ def run(ctx):
         "ClampLawsOn, MulLawsOn (a*p <= a for 0<=p<=1), ScaleLawsOn (division by a finite positive number is monotone, keeps "
         "-Inf and the sign), ShiftLawsOn (subtraction of the maximum is monotone, non-positive, keeps -Inf, no NaN unless "
         "equal); from them guardOK, both scaleOK contracts, no-NaN-after-the-shift and the two arithmetic contracts are "
-        "DERIVED (shift_scale_contracts_of_laws, arith_contracts_of_ranges); softmaxOK and runGood stay per-run contracts",
-        "reproducibility is claimed modulo the order slices.SortFunc (pdqsort) gives tokens with EQUAL logits when more "
-        "than 12 candidates are sorted (top-k off): not modelled, compared modulo that order; one Sampler is used by one "
+        "DERIVED (shift_scale_contracts_of_laws, arith_contracts_of_ranges); with SoftmaxLawsOn (x - max for a finite max, exp of "
+        "a non-positive number in [0,1], sums / quotients / products of finite non-negatives not NaN) runGood is DERIVED too "
+        "from an input guard (NaN-free logits, finite positive temperature, top_p not NaN, min_p and r in [0,1]) and the "
+        "residual finiteness guard massFinite (normaliser positive and finite, probabilities and kept mass below +Inf: flag "
+        "`mass` of the contract status, both sides) — runGood_from_input, sample_admissible_from_input; softmaxOK and "
+        "massFinite stay per-run contracts",
+        "the real top-k stage (slices.SortFunc = pdqsort, container/heap) is DETERMINISTIC, i.e. a function of its input: the "
+        "only thing reproducible_with_any_sort / sampleWith_admissible assume of it besides its output being a correct top-k; "
+        "checked on every sampled call by running the real topK twice (L2 topk-not-deterministic) and by the IsTopK flag of the "
+        "topk op. The order it gives tokens with EQUAL logits (more than 12 sorted candidates) is not modelled (compared modulo "
+        "that order); one Sampler is used by one "
         "goroutine (the runner gives every sequence its own, Tie.C18.callsites_wired)",
         "math.Exp is not modelled: the oracle uses the values the run produced",
         "llama.cpp grammar state machine not modelled: accepted id sets are probed from the real grammar per call",
